@@ -162,6 +162,10 @@ Fixpoint split_dots (s cur : bytes) : list bytes :=
   | x :: r => if x =? 46 then rev cur :: split_dots r [] else split_dots r (x :: cur)
   end.
 
+(* the labels of a textual query name: the root "." has none *)
+Definition query_labels (name : bytes) : list bytes :=
+  if match name with [x] => x =? 46 | _ => false end then [] else split_dots name [].
+
 (* NetBIOS first-level encoding (RFC 1001 14.1): 16 characters padded with spaces, each byte as two
    letters 'A'+nibble: the single label of the query name *)
 Definition nb_pad (name : bytes) : bytes := firstn 16 (name ++ repeat 32 16).
@@ -207,7 +211,7 @@ Definition wf_ra (hostmac hostlla : bytes) (mtu : N) (prefixes : list (N * bytes
   match ref_decode fr with
   | Some (mkFrame d s et (L3Ip6 _ nh hop a b (L4Icmp typ code rest))) =>
       (et =? 34525) && (nh =? 58) && (typ =? 134) && (code =? 0)
-      && beq d dmac && beq s hostmac && beq a hostlla && beq b dip && ndp_hop_ok b hop
+      && beq d dmac && beq s hostmac && beq a hostlla && beq b dip && nd_hop_ok hop
       && Nat.leb 12 (List.length rest)
       && (nth 0 rest 0 =? 64) && (w16 rest 2 =? 1800) && (w32 rest 4 =? 0) && (w32 rest 8 =? 0)
       && match ndp_opts (skipn 12 rest) with
@@ -220,11 +224,15 @@ Definition wf_ra (hostmac hostlla : bytes) (mtu : N) (prefixes : list (N * bytes
 
 (* ---------------------------------------------------------------- *)
 (* any ICMPv6 message from the host: type, code, body predicate, addresses, hop limit rule, checksum *)
+(* hop limit of an ICMPv6 message: 255 for Neighbor Discovery types 133..137, otherwise the link-local rule *)
+Definition icmp6_hop_ok (typ : N) (dip : bytes) (hop : N) : bool :=
+  if (133 <=? typ) && (typ <=? 137) then hop =? 255 else ndp_hop_ok dip hop.
+
 Definition wf_icmp6 (hostmac dmac sip dip : bytes) (typ code : N) (body_ok : bytes -> bool) (fr : bytes) : bool :=
   match ref_decode fr with
   | Some (mkFrame d s et (L3Ip6 _ nh hop a b (L4Icmp t c rest))) =>
       (et =? 34525) && (nh =? 58) && (t =? typ) && (c =? code)
-      && beq d dmac && beq s hostmac && beq a sip && beq b dip && ndp_hop_ok b hop
+      && beq d dmac && beq s hostmac && beq a sip && beq b dip && icmp6_hop_ok t b hop
       && body_ok rest && icmp6_cks_ok fr
   | _ => false
   end.
